@@ -29,8 +29,11 @@ Ended(r) == r.result # "running"
 EndTime(r) == r.obs[Len(r.obs)].t
 \* the moment routing completes, from what was observed: Client Information arrival plus the three latencies
 RoutingEnd(r) == r.obs[MinOf(Infos(r.obs))].t + r.sched.lat[1] + r.sched.lat[2] + r.sched.lat[3]
-\* is Keep Alive i echoed (with its id) before the next one is due?
-EchoedInTime(h, i) == \E e \in Echoes(h) : i < e /\ h[e].t < h[i].t + P /\ ~(\E j \in KAs(h) : i < j /\ j < e)
+\* Is Keep Alive i echoed (with its id) before the next one is due?  The statement bounds the period from above only (16 s), so
+\* two thresholds are used: the client is SURELY in time when it echoes within P - 1 seconds (any period a server may use leaves
+\* that much), and SURELY too late when nothing arrived for a full P seconds.  In between nothing is demanded.
+EchoedInTime(h, i) == \E e \in Echoes(h) : i < e /\ h[e].t < h[i].t + P - 1 /\ ~(\E j \in KAs(h) : i < j /\ j < e)
+Unechoed(h, i) == ~(\E e \in Echoes(h) : i < e /\ h[e].t <= h[i].t + P /\ ~(\E j \in KAs(h) : i < j /\ j < e))
 
 \* (a) while the client waits in the configuration phase it is sent a Keep Alive at least every P seconds
 C07_KeepAliveEveryP(r) ==
@@ -64,13 +67,13 @@ C07_TransferWhenRoutingCompletes(r) ==
 C07_SilentClientTimedOut(r) ==
   LET h == r.obs IN
   \A i \in KAs(h) :
-    (~EchoedInTime(h, i) /\ (Infos(h) = {} \/ RoutingEnd(r) > h[i].t + P) /\ (Ended(r) \/ EndTime(r) > h[i].t + P)) =>
+    (Unechoed(h, i) /\ (Infos(h) = {} \/ RoutingEnd(r) > h[i].t + P) /\ (Ended(r) \/ EndTime(r) > h[i].t + P)) =>
        /\ r.result = "MissedKeepAlive"
        /\ \E d \in Timeouts(h) : i < d /\ h[d].t <= h[i].t + P /\ d = MaxOf(Idx(h, LAMBDA x : x.e = "tx"))
 \* the timeout Disconnect is only ever sent for an unechoed Keep Alive
 C07_TimeoutOnlyIfUnechoed(r) ==
   LET h == r.obs IN
-  \A d \in Timeouts(h) : \E i \in KAs(h) : i < d /\ ~(\E e \in Echoes(h) : i < e /\ e < d /\ ~(\E j \in KAs(h) : i < j /\ j < e))
+  \A d \in Timeouts(h) : \E i \in KAs(h) : i < d /\ ~(\E e \in Echoes(h) : i < e /\ e < d /\ h[e].t < h[d].t /\ ~(\E j \in KAs(h) : i < j /\ j < e))
 
 C07Names == {"C07_KeepAliveEveryP", "C07_OneOutstanding", "C07_OnlyWhileWaiting", "C07_EchoingClientSurvives",
              "C07_TransferWhenRoutingCompletes", "C07_SilentClientTimedOut", "C07_TimeoutOnlyIfUnechoed"}
